@@ -77,8 +77,15 @@ type Extractor struct {
 	bufLen map[types.Object]int64
 	depth  int
 
-	tokOf     map[*ast.CallExpr]*node    // primitive call -> its token
-	inlineRes map[*ast.CallExpr][]string // inlined helper call -> bindings of its first result
+	consts     map[types.Object]int64 // helper parameters bound to constants
+	known      map[types.Object]int64 // variables with a known value on the path being extracted (value-set mode)
+	first      *int64                 // value-set mode: the value of the first byte read
+	firstDone  bool
+	frames     []*inlineFrame
+	term       bool                       // the statement just extracted certainly leaves the function
+	tokOf      map[*ast.CallExpr]*node    // primitive call -> its token
+	inlineRes  map[*ast.CallExpr][]string // inlined helper call -> bindings of its first result
+	inlineVals map[*ast.CallExpr]*inlineFrame
 }
 
 // New creates an extractor.
@@ -87,7 +94,7 @@ func New(c *core.Ctx, s *Spec) *Extractor {
 		s.MaxDepth = 4
 	}
 	return &Extractor{C: c, S: s, binds: map[types.Object][]string{}, used: map[string]bool{}, bufLen: map[types.Object]int64{},
-		tokOf: map[*ast.CallExpr]*node{}, inlineRes: map[*ast.CallExpr][]string{}}
+		consts: map[types.Object]int64{}, known: map[types.Object]int64{}, tokOf: map[*ast.CallExpr]*node{}, inlineRes: map[*ast.CallExpr][]string{}, inlineVals: map[*ast.CallExpr]*inlineFrame{}}
 }
 
 func (e *Extractor) undec(format string, a ...interface{}) {
@@ -177,6 +184,7 @@ func (e *Extractor) render(n *node) string {
 
 // FuncTerm extracts the term of a whole function body.
 func (e *Extractor) FuncTerm(fn *core.Fn) string {
+	e.zeroNamedResults(fn)
 	n := e.block(fn.Pkg.TypesInfo, fn.Decl.Body.List)
 	return Canon(e.render(n))
 }
@@ -265,9 +273,13 @@ func (e *Extractor) CaseTerm(info *types.Info, sw *ast.SwitchStmt, val int64, us
 
 func (e *Extractor) block(info *types.Info, stmts []ast.Stmt) *node {
 	out := seq()
+	e.term = false
 	for _, s := range stmts {
 		if n := e.stmt(info, s); n != nil {
 			out.kids = append(out.kids, n)
+		}
+		if e.term {
+			break // a decided branch returned: what follows is not on this path
 		}
 	}
 	return out
@@ -304,13 +316,32 @@ func errCond(info *types.Info, cond ast.Expr) int {
 // errorExit: the block leaves the function with an error (return whose last
 // result is not nil) or by a no-return call, unconditionally at its end.
 func (e *Extractor) errorExit(info *types.Info, b *ast.BlockStmt) bool {
+	return e.errorExitCtx(info, b, true)
+}
+
+// errorExitCtx: errCtx tells whether the block is guarded by an error test; a
+// bare return is an error exit only there, or when the block itself stores a
+// non-nil error into a named result first.
+func (e *Extractor) errorExitCtx(info *types.Info, b *ast.BlockStmt, errCtx bool) bool {
 	if b == nil || len(b.List) == 0 {
 		return false
 	}
 	switch last := b.List[len(b.List)-1].(type) {
 	case *ast.ReturnStmt:
 		if len(last.Results) == 0 {
-			return true // bare return inside an err branch with named results
+			if errCtx {
+				return true // bare return inside an err branch with named results
+			}
+			for _, st := range b.List {
+				if as, ok := st.(*ast.AssignStmt); ok && len(as.Lhs) == len(as.Rhs) {
+					for i, l := range as.Lhs {
+						if isErrIdent(info, l) && !core.IsNil(info, as.Rhs[i]) {
+							return true
+						}
+					}
+				}
+			}
+			return false
 		}
 		r := last.Results[len(last.Results)-1]
 		return !core.IsNil(info, r) && cfgq.IsErrorType(info.TypeOf(r))
@@ -384,6 +415,12 @@ func (e *Extractor) callToken(info *types.Info, c *ast.CallExpr) *node {
 		}
 	}
 	if tok, ok := e.S.Prims[name]; ok {
+		if tok == "Bytes" && len(c.Args) == 1 {
+			// a variable-length read with a constant length is a fixed-width read
+			if k, ok := e.intValue(info, c.Args[0]); ok {
+				tok = fmt.Sprintf("Fix%d", k)
+			}
+		}
 		t := &node{kind: "tok", text: tok}
 		e.tokOf[c] = t
 		return t
@@ -440,7 +477,16 @@ func (e *Extractor) callToken(info *types.Info, c *ast.CallExpr) *node {
 		e.depth++
 		saveObj, saveVal := e.tagVar, e.tagVal
 		e.tagVar, e.tagVal = nil, nil
+		e.bindParams(info, c, fn)
+		fr := &inlineFrame{fn: fn}
+		e.frames = append(e.frames, fr)
+		e.zeroNamedResults(fn)
+		saveTerm := e.term
 		n := e.block(fn.Pkg.TypesInfo, earlyReturnToElse(fn.Decl.Body.List))
+		e.term = saveTerm
+		e.frames = e.frames[:len(e.frames)-1]
+		e.finishFrame(fr)
+		e.inlineVals[c] = fr
 		e.tagVar, e.tagVal = saveObj, saveVal
 		e.depth--
 		stripRets(n)
@@ -449,6 +495,59 @@ func (e *Extractor) callToken(info *types.Info, c *ast.CallExpr) *node {
 	}
 	e.carrierCheck(info, c, name)
 	return nil
+}
+
+// bindParams gives the parameters of an inlined helper what the caller's
+// arguments stand for: the bindings of a bound variable, a tracked field, or
+// a constant.
+func (e *Extractor) bindParams(info *types.Info, c *ast.CallExpr, fn *core.Fn) {
+	if c.Ellipsis.IsValid() {
+		return
+	}
+	hi := fn.Pkg.TypesInfo
+	i := 0
+	for _, fl := range fn.Decl.Type.Params.List {
+		for _, nm := range fl.Names {
+			if i >= len(c.Args) {
+				return
+			}
+			arg := c.Args[i]
+			i++
+			po := hi.Defs[nm]
+			if po == nil {
+				continue
+			}
+			delete(e.binds, po)
+			delete(e.consts, po)
+			if k, ok := e.intValue(info, arg); ok {
+				e.consts[po] = k
+				continue
+			}
+			if ref, ok := e.refOfMark(info, arg, false); ok {
+				ref = strings.TrimSuffix(strings.TrimPrefix(ref, "["), "]")
+				e.binds[po] = strings.Split(ref, ",")
+			}
+		}
+	}
+}
+
+// intValue: a compile-time constant, or a helper parameter bound to one.
+func (e *Extractor) intValue(info *types.Info, x ast.Expr) (int64, bool) {
+	if k, ok := core.IntConst(info, x); ok {
+		return k, true
+	}
+	x = ast.Unparen(x)
+	if call, ok := x.(*ast.CallExpr); ok && len(call.Args) == 1 {
+		if tv, has := info.Types[call.Fun]; has && tv.IsType() {
+			return e.intValue(info, call.Args[0])
+		}
+	}
+	if id, ok := x.(*ast.Ident); ok {
+		if k, ok := e.consts[info.Uses[id]]; ok {
+			return k, true
+		}
+	}
+	return 0, false
 }
 
 // earlyReturnToElse rewrites `if c { A; return }; rest` as
@@ -604,6 +703,10 @@ func (e *Extractor) bindResult(info *types.Info, lhs ast.Expr, toks []*node, rhs
 				last.bind = e.newBind()
 			}
 			e.binds[obj] = []string{last.bind}
+			if e.first != nil && !e.firstDone && last.text == "U8" {
+				e.known[obj] = *e.first
+				e.firstDone = true
+			}
 			return
 		}
 		return
@@ -666,6 +769,7 @@ func (e *Extractor) assign(info *types.Info, as *ast.AssignStmt) *node {
 	for _, r := range as.Rhs {
 		toks = append(toks, e.exprTokens(info, r)...)
 	}
+	e.updateKnown(info, as)
 	for _, l := range as.Lhs {
 		// index/selector expressions on the left may call too (rare)
 		if _, ok := l.(*ast.Ident); !ok {
@@ -683,16 +787,22 @@ func (e *Extractor) assign(info *types.Info, as *ast.AssignStmt) *node {
 }
 
 func (e *Extractor) refOf(info *types.Info, x ast.Expr) (string, bool) {
+	return e.refOfMark(info, x, true)
+}
+
+func (e *Extractor) refOfMark(info *types.Info, x ast.Expr, mark bool) (string, bool) {
 	x = ast.Unparen(x)
 	if call, ok := x.(*ast.CallExpr); ok {
 		if tv, ok := info.Types[call.Fun]; ok && tv.IsType() && len(call.Args) == 1 {
-			return e.refOf(info, call.Args[0])
+			return e.refOfMark(info, call.Args[0], mark)
 		}
 	}
 	if id, ok := x.(*ast.Ident); ok {
 		if b, ok := e.binds[info.Uses[id]]; ok {
 			for _, n := range b {
-				e.used[n] = true
+				if mark {
+					e.used[n] = true
+				}
 			}
 			if len(b) == 1 {
 				return b[0], true
@@ -810,7 +920,86 @@ func (e *Extractor) ifChainSwitch(info *types.Info, x *ast.IfStmt) *ast.SwitchSt
 	return &ast.SwitchStmt{Switch: x.Pos(), Tag: tag, Body: &ast.BlockStmt{Lbrace: x.Pos(), List: clauses, Rbrace: x.End()}}
 }
 
+// clauseBlock extracts one clause of an undecided switch starting from the
+// known values at the switch.
+func (e *Extractor) clauseBlock(info *types.Info, snap map[types.Object]int64, stmts []ast.Stmt) *node {
+	e.known = e.copyKnown(snap)
+	return e.block(info, stmts)
+}
+
+func startsAtZero(info *types.Info, init ast.Stmt) bool {
+	as, ok := init.(*ast.AssignStmt)
+	if !ok || len(as.Rhs) != 1 {
+		return false
+	}
+	v, ok := core.IntConst(info, as.Rhs[0])
+	return ok && v == 0
+}
+
+// stmt extracts one statement. Branches whose condition is decided by the
+// known values are followed alone; e.term tells the enclosing block whether
+// the path certainly left the function.
 func (e *Extractor) stmt(info *types.Info, s ast.Stmt) *node {
+	switch x := s.(type) {
+	case *ast.ReturnStmt:
+		n := e.stmt1(info, s)
+		e.term = true
+		return n
+	case *ast.BlockStmt:
+		return e.block(info, x.List)
+	case *ast.IfStmt:
+		if len(e.known) > 0 || e.first != nil {
+			var n0 *node
+			y := x
+			if x.Init != nil {
+				n0 = e.stmt(info, x.Init)
+				c := *x
+				c.Init = nil
+				y = &c
+			}
+			if v, ok := e.evalBool(info, y.Cond); ok {
+				var n *node
+				e.term = false
+				if v {
+					n = e.block(info, y.Body.List)
+				} else {
+					switch el := y.Else.(type) {
+					case *ast.BlockStmt:
+						n = e.block(info, el.List)
+					case *ast.IfStmt:
+						n = e.stmt(info, el)
+					}
+				}
+				return seq(n0, n)
+			}
+			n := e.stmt1(info, y)
+			e.term = false
+			return seq(n0, n)
+		}
+	case *ast.SwitchStmt:
+		if len(e.known) > 0 || e.first != nil {
+			var n0 *node
+			y := x
+			if x.Init != nil {
+				n0 = e.stmt(info, x.Init)
+				c := *x
+				c.Init = nil
+				y = &c
+			}
+			if stmts, ok := e.knownSwitch(info, y); ok {
+				return seq(n0, e.block(info, stmts))
+			}
+			n := e.stmt1(info, y)
+			e.term = false
+			return seq(n0, n)
+		}
+	}
+	n := e.stmt1(info, s)
+	e.term = false
+	return n
+}
+
+func (e *Extractor) stmt1(info *types.Info, s ast.Stmt) *node {
 	switch x := s.(type) {
 	case nil:
 		return nil
@@ -833,13 +1022,34 @@ func (e *Extractor) stmt(info *types.Info, s ast.Stmt) *node {
 					toks := e.exprTokens(info, v)
 					out.kids = append(out.kids, toks...)
 					if i < len(vs.Names) {
+						if o := info.Defs[vs.Names[i]]; o != nil {
+							if k, ok := e.eval(info, v); ok && len(vs.Values) == len(vs.Names) {
+								e.known[o] = k
+							} else {
+								delete(e.known, o)
+							}
+						}
 						e.bindResult(info, vs.Names[i], toks, v)
+					}
+				}
+				if len(vs.Values) == 0 {
+					for _, nm := range vs.Names {
+						if o := info.Defs[nm]; o != nil {
+							if b, ok := o.Type().Underlying().(*types.Basic); ok && b.Info()&(types.IsInteger|types.IsBoolean) != 0 {
+								e.known[o] = 0
+							}
+						}
 					}
 				}
 			}
 		}
 		return out
-	case *ast.IncDecStmt, *ast.EmptyStmt:
+	case *ast.IncDecStmt:
+		if id, ok := ast.Unparen(x.X).(*ast.Ident); ok {
+			delete(e.known, info.Uses[id])
+		}
+		return nil
+	case *ast.EmptyStmt:
 		return nil
 	case *ast.GoStmt, *ast.DeferStmt, *ast.SendStmt, *ast.LabeledStmt, *ast.SelectStmt, *ast.TypeSwitchStmt:
 		if len(e.exprTokens(info, x)) > 0 {
@@ -853,6 +1063,7 @@ func (e *Extractor) stmt(info *types.Info, s ast.Stmt) *node {
 		for _, r := range x.Results {
 			toks = append(toks, e.exprTokens(info, r)...)
 		}
+		e.recordReturn(info, x)
 		return seq(append(toks, &node{kind: "ret"})...)
 	case *ast.BranchStmt:
 		switch x.Tok {
@@ -898,7 +1109,7 @@ func (e *Extractor) stmt(info *types.Info, s ast.Stmt) *node {
 				return out
 			}
 		}
-		if errCond(info, x.Cond) == -1 && e.errorExit(info, x.Body) {
+		if errCond(info, x.Cond) == -1 && e.errorExitCtx(info, x.Body, false) {
 			// `if err == nil { abort }`: the success path dies here
 			out.kids = append(out.kids, &node{kind: "tok", text: "Abort"})
 			return out
@@ -920,9 +1131,16 @@ func (e *Extractor) stmt(info *types.Info, s ast.Stmt) *node {
 		}
 		// a pure error exit guarded by a non-error condition (validation) is not grammar
 		key, swap := e.condKey(info, x.Cond) // before the branches re-bind the variables it mentions
+		snap := e.snapshotKnown()
 		thenN := e.block(info, x.Body.List)
+		e.known = e.copyKnown(snap)
 		elseN := e.block(info, els)
-		if e.errorExit(info, x.Body) {
+		e.known = snap
+		e.killAssigned(info, x.Body)
+		if x.Else != nil {
+			e.killAssigned(info, x.Else)
+		}
+		if e.errorExitCtx(info, x.Body, false) {
 			out.kids = append(out.kids, elseN)
 			return out
 		}
@@ -939,13 +1157,27 @@ func (e *Extractor) stmt(info *types.Info, s ast.Stmt) *node {
 		if x.Init != nil {
 			out.kids = append(out.kids, e.stmt(info, x.Init))
 		}
+		e.killAssigned(info, x)
 		body := e.block(info, x.Body.List)
+		e.killAssigned(info, x)
 		condToks := e.exprTokens(info, x.Cond)
 		if len(condToks) > 0 {
 			e.undec("%s: stream consumed inside a loop condition", e.C.Pos(x.Pos()))
 		}
 		if x.Cond != nil && x.Post != nil {
 			if be, ok := ast.Unparen(x.Cond).(*ast.BinaryExpr); ok && be.Op == token.LSS {
+				if _, isInc := x.Post.(*ast.IncDecStmt); isInc {
+					// `for i := 0; i < K; i++` with a small constant K is K copies of the body
+					if k, ok := e.intValue(info, be.Y); ok && k >= 0 && k <= 8 && startsAtZero(info, x.Init) {
+						for j := int64(1); j < k; j++ {
+							out.kids = append(out.kids, e.block(info, x.Body.List))
+						}
+						if k > 0 {
+							out.kids = append(out.kids, body)
+						}
+						return out
+					}
+				}
 				if ref, ok := e.refOf(info, be.Y); ok {
 					if _, isInc := x.Post.(*ast.IncDecStmt); isInc {
 						out.kids = append(out.kids, &node{kind: "loop", text: ref, kids: []*node{body}})
@@ -960,7 +1192,9 @@ func (e *Extractor) stmt(info *types.Info, s ast.Stmt) *node {
 		out.kids = append(out.kids, &node{kind: "star", kids: []*node{body}})
 		return out
 	case *ast.RangeStmt:
+		e.killAssigned(info, x)
 		body := e.block(info, x.Body.List)
+		e.killAssigned(info, x)
 		if body.empty() {
 			return nil
 		}
@@ -978,6 +1212,11 @@ func (e *Extractor) stmt(info *types.Info, s ast.Stmt) *node {
 			}
 		}
 		sw := &node{kind: "sw", text: ref}
+		swSnap := e.snapshotKnown()
+		defer func() {
+			e.known = swSnap
+			e.killAssigned(info, x.Body)
+		}()
 		type entry struct {
 			label string
 			order int64
@@ -1005,7 +1244,7 @@ func (e *Extractor) stmt(info *types.Info, s ast.Stmt) *node {
 				}
 			}
 			if cc.List == nil {
-				n := e.block(info, stmts)
+				n := e.clauseBlock(info, swSnap, stmts)
 				if e.errorExit(info, &ast.BlockStmt{List: stmts}) {
 					continue // default: error
 				}
@@ -1017,13 +1256,13 @@ func (e *Extractor) stmt(info *types.Info, s ast.Stmt) *node {
 				v, ok := core.IntConst(info, l)
 				if !ok {
 					if tv, has := info.Types[l]; has && tv.Value != nil && tv.Value.Kind() == constant.String {
-						n := e.block(info, stmts)
+						n := e.clauseBlock(info, swSnap, stmts)
 						allEmpty = allEmpty && n.empty()
 						ents = append(ents, entry{constant.StringVal(tv.Value), int64(len(ents)), n})
 						continue
 					}
 					// boolean switch (switch { case cond: }) or non-constant label
-					n := e.block(info, stmts)
+					n := e.clauseBlock(info, swSnap, stmts)
 					allEmpty = allEmpty && n.empty()
 					ents = append(ents, entry{"?", int64(len(ents)), n})
 					continue
@@ -1035,7 +1274,7 @@ func (e *Extractor) stmt(info *types.Info, s ast.Stmt) *node {
 					vv := v
 					e.tagVar, e.tagVal = info.Uses[id], &vv
 				}
-				n := e.block(info, stmts)
+				n := e.clauseBlock(info, swSnap, stmts)
 				if saveObj != nil || saveVal != nil || e.tagVar != nil {
 					e.tagVar, e.tagVal = saveObj, saveVal
 				}
